@@ -19,6 +19,14 @@ LB = "acryo/loader/_base.py"
 
 
 def anchors(a: Anchors):
+    AC = "acryo/alignment/_concrete.py"
+    ABS = "acryo/alignment/_base.py"
+    a.pure("tasks_do_not_mutate_shared_state",
+           [(AC, f"{c}.{m}") for c in ("PCCAlignment", "NCCAlignment", "ZNCCAlignment", "FSCAlignment") for m in ("_optimize", "_score", "_landscape")]
+           + [(ABS, q) for q in ("TomographyInput._get_missing_wedge_mask", "TomographyInput.pre_transform", "BaseAlignmentModel._optimize_multiple",
+                                 "BaseAlignmentModel._landscape_multiple", "BaseAlignmentModel._optimize_single", "TomographyInput.masked_difference")]
+           + [("acryo/_utils.py", q) for q in ("prepare_affine", "prepare_affine_cornersafe")] + [("acryo/backend/_api.py", "Backend.rotated_crop")],
+           "per-molecule task bodies change neither their arguments (sub-volume, cached template, mask) nor the shared model")
     a.fact("backend_defines_eq", BA, "Backend", "class Backend defines __eq__ next to __hash__",
            lambda cls: any(isinstance(n, ast.FunctionDef) and n.name == "__eq__" for n in cls.body)
            and any(isinstance(n, ast.FunctionDef) and n.name == "__hash__" for n in cls.body))
